@@ -185,6 +185,9 @@ def run(ctx) -> None:
     rng = ctx.rng
     quick = ctx.tier == "quick"
     all_comps = list(BOUNDS.keys())
+    # guaranteed minimum, independent of the time budget: one env-level run
+    env_episodes(ctx, {"n": 3, "generator": "noisy_factory", "computer": "superadditive_cached", "gap": "exploitability",
+                       "seed": rng.randint(0, 10**6), "episodes": 2, "scale": 1.0, "offset": 0.0, "kind": "env"})
     # n = 3: every edge, both directions, all six computers
     for comp in all_comps:
         for _ in range(1 if quick else 3):
